@@ -20,7 +20,8 @@ import initbuild as ib
 ID = "C08"
 RULE = ("struct: class bodies = items {function, classmethod, staticmethod, property(getter/setter/deleter), "
         "cached_property, wrapped function / foreign descriptor, plain attribute, user __getattr__/__setattr__/"
-        "__attrs_init_subclass__} x user callbacks that run DURING class construction and change the class {a field_transformer that "
+        "__attrs_init_subclass__}, each wrapper optionally an instance of a SUBCLASS of cached_property / property / classmethod / "
+        "staticmethod x user callbacks that run DURING class construction and change the class {a field_transformer that "
         "sets new class attributes / helpers, deletes or replaces existing ones; __init_subclass__ of a plain base, the custom "
         "metaclass's __init__, __set_name__ of a foreign descriptor and the inherited __attrs_init_subclass__ each annotating the "
         "class they are given} x member naming {public key, name-mangled private key (`__q` in class C = `_C__q`), dunder-like "
@@ -45,7 +46,8 @@ RULE = ("struct: class bodies = items {function, classmethod, staticmethod, prop
         "getattr-with-default the default, copy.copy / copy.deepcopy work. "
         "isub: every chain of <=3 (quick) / <=5 (thorough) levels over {plain, dict attrs, slotted attrs} x defines-hook, "
         "random longer ones. meta: initbuild class chains (C01/C02/C12 space) built with leaf slots on and off x call "
-        "shapes (malformed included) x single-fault positions x operations. Non-trivial: struct = a function uses the class, "
+        "shapes (malformed included) x single-fault positions x operations, incl. the history hash -> copy / deepcopy / pickle -> hash on an instance one of whose "
+        "fields holds an identity-hashed object, and single-class specifications with getstate_setstate=False (x cache_hash). Non-trivial: struct = a function uses the class, "
         "a base exists or a cached property is read; isub = some level defines the hook; meta = the class has a field; "
         "distinct = distinct JSON case")
 ASSUMPTIONS = [
@@ -70,6 +72,12 @@ ASSUMPTIONS = [
     "predicts it by applying the hook's operations to a copy of the original class dict); what the hook deleted must stay "
     "deleted, the inherited hook's mark must be on the returned class, and every callback-made attribute must be the same "
     "object on the slotted class and on the dict build of the same class object (callbackDiff, observed)",
+    "struct: wrapper subclasses are harness-only variation (the build special-cases by isinstance, the model by item kind); "
+    "subclasses of attrs's own _CountingAttr are NOT exercised: attrs recognises fields by exact type on purpose",
+    "meta: getstate_setstate=False is generated only for single, non-frozen, hook-free, non-exception classes and pickled with "
+    "protocols >= 2 -- elsewhere the option by itself makes the builds differ (K11 of C10: protocols 0/1 refuse __slots__ "
+    "without __getstate__, frozen slotted instances cannot be restored, default restoring runs setattr hooks, an inherited pair "
+    "loses fields)",
     "struct: member naming (mangled / dunder-like keys, function __name__ different from the key) is harness-only variation: the "
     "model is a function of the body's keys and item kinds and never sees a function's __name__",
     "struct: what an 'other' closure cell holds is harness-only variation: the model (and C08_cells_exact) says every cell not "
@@ -262,6 +270,9 @@ def gen_struct(rng):
     for key, spec in items:
         if spec["k"] == "plain":
             continue
+        # the member object may be an instance of a SUBCLASS of the type the build special-cases
+        if spec["k"] in ("cprop", "prop", "cm", "sm") and rng.random() < 0.3:
+            spec["sub"] = True
         r = rng.random()
         if r < 0.25:
             spec["fname"] = "alias"
@@ -499,11 +510,27 @@ def gen_meta(rng, n_faults=2):
     for c in h["classes"]:
         if c["kind"] == "attrs" and not c.get("cache_hash") and rng.random() < 0.4:
             c["unsafe_hash"] = True
+    # the generated pickle pair switched off (both builds then use the default protocol): only where that option does
+    # not by itself make the builds differ (K11 of C10: protocols 0/1 refuse __slots__ without __getstate__, frozen
+    # slotted instances cannot be restored, default restoring goes through setattr and would run hooks)
+    leaf = h["classes"][-1]
+    gs_off = False
+    if (len(h["classes"]) == 1 and rng.random() < 0.4 and not leaf.get("exc_base") and not ib.leaf_frozen(h)
+            and leaf.get("api") in ("attr.s", "these", "make_class")
+            and leaf.get("cls_on_setattr", "unset") in ("unset", "noop")
+            and all(f.get("on_setattr", "unset") in ("unset", "noop") for f in leaf.get("fields", []))):
+        leaf["getstate_setstate"] = False
+        gs_off = True
+        if rng.random() < 0.6 and leaf.get("init") is not False:
+            leaf["cache_hash"] = True          # the cached hash is then part of what the default protocol copies
+            leaf["unsafe_hash"] = True
     try:
         ib.build(cm.toggled(h, False))
     except Exception:  # noqa: BLE001 -- the specification itself does not define: not a case
         return
     ops = gen_ops(rng, h)
+    if gs_off:
+        ops["protocols"] = [p for p in ops["protocols"] if p >= 2] or [2]
     call = ib.gen_call(rng, h, malformed=0.2)
     yield cm.make_case(h, call, None, ops)
     # single faults at positions of the fault-free trace (only for well-formed calls)
@@ -610,6 +637,7 @@ def dist(case, obs):
             "m.depth": len(case["h"]["classes"]), "m.api": leaf.get("api"), "m.n_fields": len(r["attrs"]),
             "m.frozen": r["cfg"]["frozen"], "m.cache_hash": r["cfg"]["cacheHash"], "m.is_exc": r["cfg"]["isExc"],
             "m.fault": (case.get("fault") or ["none"])[0],
+            "m.getstate_setstate": str(leaf.get("getstate_setstate")),
             "m.exc": obs.get("on", {}).get("exc") if isinstance(obs, dict) else "?",
             "m.base_kinds": "+".join(("S" if ib.leaf_slots(c) else "D") if c["kind"] == "attrs" else "P"
                                      for c in case["h"]["classes"][:-1]) or "-",
@@ -665,6 +693,11 @@ def shrink(case):
             for i in range(len(hs["ft"])):
                 h2 = copy.deepcopy(hs)
                 del h2["ft"][i]
+                cands.append(h2)
+        for i, (_k, sp) in enumerate(hs["items"]):
+            if sp.get("sub"):
+                h2 = copy.deepcopy(hs)
+                h2["items"][i][1].pop("sub")
                 cands.append(h2)
         for i, (_k, sp) in enumerate(hs["items"]):
             if sp.get("fname"):
